@@ -105,6 +105,7 @@ func (e *Engine) RunRoot(fn *ssa.Function) (err error) {
 		e.checkIfaceCallsOnly(s, fn, fr.contract)
 		e.checkDirectCallsOnly(s, fn, fr.contract)
 		e.checkNeverCalls(s, fn, fr.contract)
+		e.checkSpawnNeverWrites(s, fr, fn, fr.contract)
 		if fr.contract.Flags["frame_only"] != "" && fr.contract.Flags["never_writes"] == "" {
 			return nil
 		}
